@@ -219,7 +219,7 @@ def twins(w):
 
 def shards(tier, seed):
     n = 64 if tier == 'quick' else 1200
-    return [('tmpl', w) for w in (8, 32)] + [('twins', w) for w in (8, 16, 32)] + [('rand', i) for i in range(n)]
+    return [('tmpl', w) for w in (8, 32)] + [('slicecomp', 0)] + [('twins', w) for w in (8, 16, 32)] + [('rand', i) for i in range(n)]
 
 
 def run_shard(shard, tier, seed):
@@ -229,6 +229,25 @@ def run_shard(shard, tier, seed):
         rng = common.rng_for(0, 'C13t', shard[1])
         for fam, t in templates(shard[1]):
             check_tree(sh, t, rng)
+        return sh
+    if shard[0] == 'slicecomp':
+        # slice / compose rules (merging of adjacent slices, slices of compositions, ...): alone and as an operand of each
+        # AC operator on either side (the parent re-visits reordered operands, which can hide an unfinished simplification)
+        from vf.checks.c05 import slice_compose_templates
+        ex, mi = exprgen.M()
+        rng = common.rng_for(0, 'C13sc')
+        for fam, t in slice_compose_templates():
+            check_tree(sh, t, rng)
+            try:
+                w = irsem.width(t)
+            except irsem.IllFormed:
+                continue
+            if w not in (8, 16, 32, 64):
+                continue
+            b_, a_ = ex.ExprId('b%d' % w, w), ex.ExprId('a%d' % w, w)
+            for op in ('+', '^'):
+                check_tree(sh, ex.ExprOp(op, b_, t), rng)
+                check_tree(sh, ex.ExprOp(op, t, a_), rng)
         return sh
     if shard[0] == 'twins':
         ex, mi = exprgen.M()
